@@ -1,7 +1,5 @@
 #!/bin/bash
-# verify a list of seeded ids (e.g. C12a C12b) sequentially; a lock directory serialises queues
-while ! mkdir /tmp/seeded_verify.lock 2>/dev/null; do sleep 15; done
-trap 'rmdir /tmp/seeded_verify.lock' EXIT
+# verify a list of seeded ids (e.g. C12a C12b) sequentially (queues work on disjoint ids)
 for m in "$@"; do
   t="tests/test_envs.py tests/test_utils.py"
   case $m in
